@@ -684,7 +684,7 @@ func (p *CPU) execInst(bus *device.Bus, as abi.As, arg *abi.AsRawArgument) error
 			p.RegX[arg.Rd] = LAUInt(int64(int32(p.RegX[arg.Rs1]) >> uint(arg.Imm)))
 			return nil
 		case loong64.ASRLI_W:
-			p.RegX[arg.Rd] = LAUInt(int64(uint32(p.RegX[arg.Rs1]) >> uint(arg.Imm)))
+			p.RegX[arg.Rd] = LAUInt(int64(int32(uint32(p.RegX[arg.Rs1]) >> uint(arg.Imm))))
 			return nil
 		}
 	case loong64.OpFormatType_2R_ui6:
